@@ -215,19 +215,11 @@ QString forgeName(const Forge &f)
         (f.typeBits ? QStringLiteral("/reserved-type-bits=%1").arg(f.typeBits) : QString());
 }
 
-QByteArray buildForgedPlain(const Forge &f, Peer &victim, Peer &other, const QByteArray &copiedId, int salt);
 QByteArray buildForged(const Forge &f, Peer &victim, Peer &other, const QByteArray &copiedId, int salt)
 {
-    QByteArray d = buildForgedPlain(f, victim, other, copiedId, salt);
-    if (f.typeBits && !d.isEmpty()) {
-        d[0] = char(quint8(d[0]) | quint8(f.typeBits << 6));
-    }
-    return d;
-}
-QByteArray buildForgedPlain(const Forge &f, Peer &victim, Peer &other, const QByteArray &copiedId, int salt)
-{
     QXmppStunMessage m;
-    m.setType(int(QXmppStunMessage::Binding) | (f.cls == 0 ? int(QXmppStunMessage::Request) : (f.cls == 1 ? int(QXmppStunMessage::Response) : int(QXmppStunMessage::Error))));
+    // (the reserved bits are set before encoding so that FINGERPRINT covers them)
+    m.setType(quint16(f.typeBits << 14) | quint16(int(QXmppStunMessage::Binding) | (f.cls == 0 ? int(QXmppStunMessage::Request) : (f.cls == 1 ? int(QXmppStunMessage::Response) : int(QXmppStunMessage::Error)))));
     QByteArray id(12, char(0x40 + salt));
     if (f.copiedId && copiedId.size() == 12) {
         id = copiedId;
